@@ -20,10 +20,12 @@ import (
 	"time"
 
 	ic "github.com/libp2p/go-libp2p/core/crypto"
+	"github.com/libp2p/go-libp2p/core/host"
 	"github.com/libp2p/go-libp2p/core/network"
 	"github.com/libp2p/go-libp2p/core/peer"
 	"github.com/libp2p/go-libp2p/core/protocol"
 	"github.com/libp2p/go-libp2p/core/sec"
+	blankhost "github.com/libp2p/go-libp2p/p2p/host/blank"
 	"github.com/libp2p/go-libp2p/p2p/host/eventbus"
 	"github.com/libp2p/go-libp2p/p2p/host/peerstore/pstoremem"
 	rcmgr "github.com/libp2p/go-libp2p/p2p/host/resource-manager"
@@ -93,12 +95,23 @@ func c07Identity(name string) (c07Ident, error) {
 // ---------- one host ----------
 
 type c07Node struct {
-	h  *BasicHost
-	rm network.ResourceManager
-	id peer.ID
+	h     host.Host
+	basic *BasicHost // nil for a BlankHost
+	rm    network.ResourceManager
+	id    peer.ID
+	extra []io.Closer // what BlankHost.Close does not close
 }
 
-func c07NewNode(nw *c07Net, name string, listen, limitedDialer bool) (*c07Node, error) {
+func (n *c07Node) close() {
+	n.h.Close()
+	for _, c := range n.extra {
+		c.Close()
+	}
+}
+
+// c07NewNode builds one host: a BasicHost (identify, optimistic negotiation from peerstore knowledge), or with
+// blank=true a BlankHost (no identify: every open negotiates).
+func c07NewNode(nw *c07Net, name string, listen, limitedDialer, blank bool) (*c07Node, error) {
 	ident, err := c07Identity(name)
 	if err != nil {
 		return nil, err
@@ -139,13 +152,21 @@ func c07NewNode(nw *c07Net, name string, listen, limitedDialer bool) (*c07Node, 
 			return nil, err
 		}
 	}
-	h, err := NewHost(sw, &HostOpts{EventBus: eb})
+	if blank {
+		bh := blankhost.NewBlankHost(sw, blankhost.WithEventBus(eb))
+		if bh == nil {
+			sw.Close()
+			return nil, fmt.Errorf("NewBlankHost returned nil")
+		}
+		return &c07Node{h: bh, rm: rm, id: ident.id, extra: []io.Closer{ps, rm}}, nil
+	}
+	h, err := NewHost(sw, &HostOpts{EventBus: eb, DisableSignedPeerRecord: true})
 	if err != nil {
 		sw.Close()
 		return nil, err
 	}
 	h.Start()
-	return &c07Node{h: h, rm: rm, id: ident.id}, nil
+	return &c07Node{h: h, basic: h, rm: rm, id: ident.id}, nil
 }
 
 // ---------- handler registry ----------
@@ -195,9 +216,10 @@ type c07Inv struct {
 // ---------- the instance ----------
 
 type c07Inst struct {
-	nw *c07Net
-	L  *c07Node
-	D  [2]*c07Node
+	nw    *c07Net
+	blank bool // all three hosts are BlankHosts
+	L     *c07Node
+	D     [2]*c07Node
 
 	mu      sync.Mutex
 	live    map[protocol.ID]*c07Reg
@@ -210,6 +232,11 @@ type c07Inst struct {
 	pkey   string // the part of it that determines the outcome of an open (handlers + knowledge)
 	saved  [2][]protocol.ID
 	hist   []string
+
+	// derived by snapshot(), used by enabled()
+	muxOrder  []protocol.ID // the listener's mux entries (without identify's), in mux order
+	snapStale bool          // the mux differs from the identify snapshot: the next protocols-updated event pushes
+	knownSet  [2]map[protocol.ID]bool
 	ck     *c07Checker
 }
 
@@ -220,14 +247,14 @@ func (in *c07Inst) fail(f string, a ...any) {
 }
 
 func c07NewInst(ck *c07Checker) *c07Inst {
-	in := &c07Inst{nw: c07NewNet(), live: map[protocol.ID]*c07Reg{}, ck: ck}
+	in := &c07Inst{nw: c07NewNet(), live: map[protocol.ID]*c07Reg{}, ck: ck, blank: ck.blank}
 	var err error
-	if in.L, err = c07NewNode(in.nw, "L", true, false); err != nil {
+	if in.L, err = c07NewNode(in.nw, "L", true, false, in.blank); err != nil {
 		in.fail("listener: %v", err)
 		return in
 	}
 	for k := range in.D {
-		if in.D[k], err = c07NewNode(in.nw, "D"+c07ConnName[k], false, k == c07Limited); err != nil {
+		if in.D[k], err = c07NewNode(in.nw, "D"+c07ConnName[k], false, k == c07Limited, in.blank); err != nil {
 			in.fail("dialer %s: %v", c07ConnName[k], err)
 			return in
 		}
@@ -239,7 +266,9 @@ func c07NewInst(ck *c07Checker) *c07Inst {
 			return in
 		}
 	}
-	synctest.Wait() // both identify exchanges (each direction) have completed
+	synctest.Wait() // both identify exchanges (each direction) have run
+	// (Whether identify SUCCEEDED is not checked: if it did not, the dialers simply start with the knowledge
+	// "unknown", which is part of the state key.)
 	// the fixture must be what it claims to be: one direct and one limited connection, seen as such by both ends
 	for k := range in.D {
 		want := network.Connected
@@ -253,9 +282,6 @@ func c07NewInst(ck *c07Checker) *c07Inst {
 		if len(cs) != 1 || cs[0].Stat().Limited != (k == c07Limited) {
 			in.fail("listener: connection from %s dialer: %d conns / wrong Limited flag", c07ConnName[k], len(cs))
 		}
-		if sup, _ := in.D[k].h.Peerstore().SupportsProtocols(in.L.id, identify.ID); len(sup) != 1 {
-			in.fail("dialer %s: identify did not complete (listener's protocols unknown)", c07ConnName[k])
-		}
 	}
 	in.snapshot()
 	return in
@@ -264,11 +290,11 @@ func c07NewInst(ck *c07Checker) *c07Inst {
 func (in *c07Inst) close() {
 	for _, d := range in.D {
 		if d != nil {
-			d.h.Close()
+			d.close()
 		}
 	}
 	if in.L != nil {
-		in.L.h.Close()
+		in.L.close()
 	}
 }
 
@@ -362,9 +388,14 @@ type c07Op struct {
 	Mux  bool // applied directly on the listener's mux: no EvtLocalProtocolsUpdated, no identify push
 }
 
-func c07Alphabet() []c07Op {
+// c07Alphabet: blank=true leaves out what is meaningless without identify and without optimistic negotiation
+// (mux-direct forms differ from the API forms only by the event nobody consumes; knowledge is never used).
+func c07Alphabet(blank bool) []c07Op {
 	var ops []c07Op
 	for _, mux := range []bool{false, true} {
+		if blank && mux {
+			continue
+		}
 		for p := range c07U {
 			ops = append(ops, c07Op{Kind: c07OpSetExact, P: p, Mux: mux})
 		}
@@ -376,6 +407,9 @@ func c07Alphabet() []c07Op {
 		for p := range c07U {
 			ops = append(ops, c07Op{Kind: c07OpRemove, P: p, Mux: mux})
 		}
+	}
+	if blank {
+		return ops
 	}
 	ops = append(ops, c07Op{Kind: c07OpClear})
 	for p := range c07U {
@@ -498,11 +532,13 @@ func (in *c07Inst) snapshot() {
 		return
 	}
 	var hs []string
+	in.muxOrder = nil
 	in.mu.Lock()
 	for _, p := range in.L.h.Mux().Protocols() {
 		if c07IsIdentify(p) {
 			continue
 		}
+		in.muxOrder = append(in.muxOrder, p)
 		k := byte('?') // an entry the harness did not (or no longer does) account for
 		if r := in.live[p]; r != nil {
 			k = r.kind
@@ -517,7 +553,13 @@ func (in *c07Inst) snapshot() {
 	}
 	in.mu.Unlock()
 	var snap []string
-	if _, protos, ok := identify.VerifC07Snapshot(in.L.h.IDService()); ok {
+	if in.blank {
+		// no identify service: nothing is ever pushed
+		for _, p := range in.muxOrder {
+			snap = append(snap, string(p))
+		}
+		sort.Strings(snap)
+	} else if _, protos, ok := identify.VerifC07Snapshot(in.L.basic.IDService()); ok {
 		for _, p := range protos {
 			if !c07IsIdentify(p) {
 				snap = append(snap, string(p))
@@ -527,12 +569,91 @@ func (in *c07Inst) snapshot() {
 	} else {
 		in.fail("identify snapshot not accessible")
 	}
+	muxSorted := []string{}
+	for _, p := range in.muxOrder {
+		muxSorted = append(muxSorted, string(p))
+	}
+	sort.Strings(muxSorted)
+	in.snapStale = fmt.Sprint(muxSorted) != fmt.Sprint(append([]string{}, snap...))
 	for k := range in.D {
 		ps, _ := in.D[k].h.Peerstore().GetProtocols(in.L.id)
 		in.saved[k] = ps
+		in.knownSet[k] = map[protocol.ID]bool{}
+		for _, p := range ps {
+			in.knownSet[k][p] = true
+		}
 	}
 	in.pkey = fmt.Sprintf("mux=%v live=%v known[direct]=%v known[limited]=%v", hs, lv, in.known(0), in.known(1))
 	in.key = in.pkey + fmt.Sprintf(" idsnap=%v", snap)
+}
+
+// enabled returns the operations that can change the state. The operations left out are self-loops of the
+// state graph (same mux order and kinds, same identify snapshot, same knowledge), which the search would
+// merge anyway; leaving them out only saves building a fixture to find that out:
+//   - re-registering the same kind of handler under a name that is already the LAST mux entry (AddHandler
+//     removes and appends), unless - for the API form - a push is pending (then it refreshes the dialers);
+//   - removing a name the mux does not have; through the API this still emits the event, which pushes iff the
+//     snapshot is stale: exactly one such "pure refresh" is kept (the first name not in the mux);
+//   - forgetting when neither dialer knows a protocol of the universe;
+//   - learning a protocol nobody handles (the open fails, nothing is recorded) or that both dialers already
+//     know and the listener handles (optimistic open, nothing is recorded).
+func (in *c07Inst) enabled(alphabet []c07Op) []c07Op {
+	if in.broken != "" {
+		return nil
+	}
+	inMux := map[protocol.ID]bool{}
+	for _, p := range in.muxOrder {
+		inMux[p] = true
+	}
+	last := protocol.ID("")
+	if n := len(in.muxOrder); n > 0 {
+		last = in.muxOrder[n-1]
+	}
+	refresh := -1 // the first name of the universe that is not in the mux
+	for i, u := range c07U {
+		if !inMux[u] {
+			refresh = i
+			break
+		}
+	}
+	var out []c07Op
+	for _, o := range alphabet {
+		switch o.Kind {
+		case c07OpSetExact, c07OpSetMatch:
+			kind := byte(c07Exact)
+			if o.Kind == c07OpSetMatch {
+				kind = c07Match
+			}
+			in.mu.Lock()
+			r := in.live[c07U[o.P]]
+			in.mu.Unlock()
+			same := r != nil && r.kind == kind && last == c07U[o.P]
+			if same && (o.Mux || !in.snapStale) {
+				continue
+			}
+		case c07OpRemove:
+			if !inMux[c07U[o.P]] && (o.Mux || !in.snapStale || o.P != refresh) {
+				continue
+			}
+		case c07OpClear:
+			any := false
+			for k := range in.D {
+				for _, u := range c07U {
+					any = any || in.knownSet[k][u]
+				}
+			}
+			if !any {
+				continue
+			}
+		case c07OpLearn:
+			p := c07U[o.P]
+			if len(in.acceptors(p)) == 0 || (in.knownSet[0][p] && in.knownSet[1][p]) {
+				continue
+			}
+		}
+		out = append(out, o)
+	}
+	return out
 }
 
 // restore puts dialer k's knowledge back to what it was when the state was entered (an open on the
